@@ -149,6 +149,8 @@ PRODS = {
         ("[v + w for v in {0} for w in {1}]", ["list", "list"]), ("sorted({{v for v in {0}}})", ["list"]), ("list(({0}, {1}))", ["int", "int"]),
         ("sorted({{{0}, {1}}})", ["int", "int"]), ("sorted({{v: {0} for v in {1}}})", ["int", "list"]), ("list(v for v in {0})", ["list"]),
         ("list({0}.keys())", ["dict"]),
+        ("[*{0}, {1}]", ["list", "int"]), ("list((*{0}, {1}))", ["list", "int"]), ("sorted({{*{0}, {1}}})", ["list", "int"]),
+        ("[{0}, *{1}, *{2}]", ["int", "list", "list"]),
     ],
     "str": [
         ("str({0})", ["int"]), ("{0} + {1}", ["str", "str"]), ("f'{{{0}}}'", ["int"]), ("f'<{{{0}!r}}>'", ["str"]), ("f'{{{0}:>{{{1}}}}}'", ["int", "int"]),
@@ -156,6 +158,7 @@ PRODS = {
     ],
     "dict": [
         ("{{{0}: {1}}}", ["str", "int"]), ("{{v: {0} for v in {1}}}", ["int", "list"]), ("dict(a={0})", ["int"]),
+        ("{{**{0}, 'zz': {1}}}", ["dict", "int"]), ("{{'zz': {1}, **{0}}}", ["dict", "int"]),
     ],
     "none": [],
 }
